@@ -128,3 +128,39 @@ Proof.
     + apply Forall2i_refl; left; reflexivity.
   - destruct (nth_error _ _); cbn; apply Forall2i_refl; reflexivity.
 Qed.
+
+(** [first_hit] either changes nothing (no eligible link reports success) or applies
+    [f] at exactly one index, the first eligible one that reports success. *)
+Lemma first_hit_upd (f : link -> link * bool) skip : forall l i l' r,
+  first_hit f skip i l = (l', r) ->
+  match r with
+  | None => l' = l /\
+            (forall k c, nth_error l k = Some c -> skip <> Some (i + k)%nat -> snd (f c) = false)
+  | Some j => exists k c, j = (i + k)%nat /\ nth_error l k = Some c /\ snd (f c) = true /\
+                          skip <> Some j /\ l' = upd k (fun x => fst (f x)) l
+  end.
+Proof.
+  induction l as [|c l IH]; intros i l' r H; cbn in H.
+  - inversion H; subst. split; [reflexivity|]. intros [|k] c0 Hn; discriminate.
+  - destruct (match skip with Some k => Nat.eqb k i | None => false end) eqn:Es.
+    + destruct (first_hit f skip (S i) l) as [t' r'] eqn:Ef. inversion H; subst.
+      specialize (IH (S i) t' r Ef). destruct r as [j|].
+      * destruct IH as (k & c0 & -> & Hn & Hs & Hk & ->). exists (S k), c0.
+        split; [lia|]. split; [exact Hn|]. split; [exact Hs|]. split; [|reflexivity].
+        intros E. apply Hk. rewrite E. f_equal; lia.
+      * destruct IH as [-> Hall]. split; [reflexivity|]. intros [|k] c0 Hn Hsk.
+        -- exfalso. destruct skip as [s|]; [|discriminate]. apply Nat.eqb_eq in Es. subst. apply Hsk. f_equal; lia.
+        -- cbn in Hn. apply (Hall k c0 Hn). intros E. apply Hsk. rewrite E. f_equal; lia.
+    + destruct (f c) as [c' hit] eqn:Efc. destruct hit.
+      * inversion H; subst. exists 0%nat, c. cbn. rewrite ?Efc. cbn. split; [lia|]. split; [reflexivity|].
+        split; [reflexivity|]. split; [|reflexivity].
+        intros E. destruct skip as [s|]; [|discriminate]. inversion E; subst. rewrite Nat.eqb_refl in Es. discriminate.
+      * destruct (first_hit f skip (S i) l) as [t' r'] eqn:Ef. inversion H; subst.
+        specialize (IH (S i) t' r Ef). destruct r as [j|].
+        -- destruct IH as (k & c0 & -> & Hn & Hs & Hk & ->). exists (S k), c0.
+           split; [lia|]. split; [exact Hn|]. split; [exact Hs|]. split; [|reflexivity].
+        intros E. apply Hk. rewrite E. f_equal; lia.
+        -- destruct IH as [-> Hall]. split; [reflexivity|]. intros [|k] c0 Hn Hsk.
+           ++ cbn in Hn. inversion Hn; subst. rewrite Efc. reflexivity.
+           ++ cbn in Hn. apply (Hall k c0 Hn). intros E. apply Hsk. rewrite E. f_equal; lia.
+Qed.
